@@ -203,7 +203,7 @@ pub fn check_program(prog: &asp::Program, inputs: &[(String, usize)], ws: &[i128
 
 /// all subsets of predicates not occurring in heads
 pub fn input_sets(prog: &asp::Program) -> Vec<Vec<(String, usize)>> {
-    let heads: Vec<(String, usize)> = prog.head_predicates().into_iter().map(|p| (p.symbol, p.arity)).collect();
+    let heads: Vec<(String, usize)> = refsem::head_predicates(prog);
     let cand: Vec<(String, usize)> = prog
         .predicates()
         .into_iter()
